@@ -167,3 +167,45 @@ pub fn hash128(bytes: &[u8]) -> u128 {
     b ^= b >> 33;
     ((a as u128) << 64) | b as u128
 }
+
+/// Abstract data values for explorer runs. Data independence in the 7-bit values is an
+/// assumption of every value-abstracted explorer; instead of always using the same two values
+/// the runs rotate: the first pair is fixed, quick adds `quick_extra` seeded pairs, thorough in
+/// the release build covers every 7-bit value once as first member of a pair (and once as
+/// second member, since a -> 37a+11 mod 128 is a bijection).
+pub fn value_pairs(cfg: &Cfg, stream: u64, quick_extra: usize) -> Vec<[u8; 2]> {
+    let mut v: Vec<[u8; 2]> = vec![[0, 1]];
+    if cfg.as_c18 {
+        return v;
+    }
+    if cfg.thorough && cfg.release {
+        for a in 0u16..128 {
+            let b = ((a * 37 + 11) % 128) as u8;
+            if [a as u8, b] != [0, 1] {
+                v.push([a as u8, b]);
+            }
+        }
+    } else {
+        let mut rng = Rng::derive(cfg.seed, 0xAB57 ^ stream);
+        let n = if cfg.thorough { quick_extra * 3 } else { quick_extra };
+        while v.len() < 1 + n {
+            let a = rng.below(128) as u8;
+            let b = rng.below(128) as u8;
+            if a != b {
+                v.push([a, b]);
+            }
+        }
+    }
+    v
+}
+
+/// the i-th channel of a seeded permutation of 0..16
+pub fn rotating_channel(cfg: &Cfg, i: usize) -> u8 {
+    let mut c: Vec<u8> = (0..16).collect();
+    let mut rng = Rng::derive(cfg.seed, 0xC4A2);
+    for k in 0..16 {
+        let j = rng.range(k as u64, 15) as usize;
+        c.swap(k, j);
+    }
+    c[i % 16]
+}
